@@ -250,7 +250,7 @@ SRC_MODULES = {
     "Anonymongo.Src.isFieldNameValue_eq": "Helpers", "Anonymongo.Src.isRedactableFieldPatternInArray_eq": "Helpers",
     "Anonymongo.Src.isInSearchStage_eq": "Helpers", "Anonymongo.Src.augmentOp_eq": "Helpers",
     "Anonymongo.Src.redactOperation_eq": "Dispatch", "Anonymongo.Src.redactOperation_seq": "Dispatch", "Anonymongo.Src.seqOp_map": "Dispatch",
-    "Anonymongo.Src.seqVal_eq": "Dispatch",
+    "Anonymongo.Src.seqVal_eq": "Dispatch", "Anonymongo.Src.redactNamespaceFields_eq": "Dispatch", "Anonymongo.Src.Gen_searchedFields": "Dispatch",
     "Anonymongo.Src.HashName_eq": "Hash", "Anonymongo.Src.trimLeftCutset_dollar": "Hash",
     "Anonymongo.Src.redactQueryValues_eq": "Walk", "Anonymongo.Src.redactArrayValuesWithKey_eq": "Walk", "Anonymongo.Src.redactArrayValues_eq": "Walk",
     "Anonymongo.Src.redactQueryValues_eq_gen": "Walk", "Anonymongo.Src.QA_all": "Walk", "Anonymongo.Src.Q_step": "Walk", "Anonymongo.Src.A_step": "Walk",
@@ -271,7 +271,7 @@ SRC_THEOREMS = {
     "C05": _LEAF + _WALK,
     "C07": _LEAF + _PATH + _HELP + _WALK + _DISP,
     "C10": ["Anonymongo.Src.redactString_eq", "Anonymongo.Src.redactScalarValue_eq"] + _WALK,
-    "C12": ["Anonymongo.Src.getOp_eq", "Anonymongo.Src.traverseMapPath_eq", "Anonymongo.Src.HashName_eq"],
+    "C12": ["Anonymongo.Src.getOp_eq", "Anonymongo.Src.traverseMapPath_eq", "Anonymongo.Src.HashName_eq", "Anonymongo.Src.redactNamespaceFields_eq", "Anonymongo.Src.Gen_searchedFields"],
     "C13": ["Anonymongo.Src.HashName_eq", "Anonymongo.Src.trimLeftCutset_dollar"],
     "C14": _LEAF + ["Anonymongo.Src.isRedactableFieldPatternInArray_eq", "Anonymongo.Src.augmentOp_eq"] + _WALK,
     "C15": ["Anonymongo.Src.isFieldNameValue_eq", "Anonymongo.Src.HashName_eq"] + _WALK,
